@@ -495,12 +495,23 @@ impl StateStore {
 
         // Checkpoint ids must be distinct: two checkpoints taken within the same
         // millisecond would otherwise share an id and overwrite each other's directory.
+        // The suffix continues after the highest one in use for this millisecond, so an id is
+        // not handed out again after retention has dropped an older checkpoint.
         {
             let existing = self.checkpoints.read().unwrap();
-            let mut suffix = 1;
-            while existing.iter().any(|c| c.id == checkpoint_id) {
+            let next_suffix = existing
+                .iter()
+                .filter_map(|c| {
+                    let rest = c.id.strip_prefix(checkpoint_id.as_str())?;
+                    if rest.is_empty() {
+                        Some(1)
+                    } else {
+                        rest.strip_prefix('_')?.parse::<u64>().ok().map(|n| n + 1)
+                    }
+                })
+                .max();
+            if let Some(suffix) = next_suffix {
                 checkpoint_id = format!("checkpoint_{}_{}", now_ms, suffix);
-                suffix += 1;
             }
         }
 
